@@ -43,6 +43,30 @@ Theorem C11_roundtrip_stmts : forall P S out, wf_set S -> print_set P S = Some o
 Proof. exact roundtrip_stmts. Qed.
 Print Assumptions C11_roundtrip_stmts.
 
+(* nothing lost, nothing added: the re-parsed imports are exactly the elements of S, and rebuilding the set
+   from them gives S back (S strictly sorted, as every ImportSet is by construction) *)
+Theorem C11_canonical_in : forall sep S x, wf_set S -> (In x (canonical sep S) <-> In x S).
+Proof. exact canonical_in. Qed.
+Print Assumptions C11_canonical_in.
+
+(* reprint: formatting the re-parsed set reproduces the identical text (fixed point) *)
+Theorem C11_reprint : forall P S out S', wf_set S -> sorted_set S -> print_set P S = Some out ->
+  parse_imports out = Some S' -> print_set P (from_imports false S') = Some out.
+Proof. exact reprint. Qed.
+Print Assumptions C11_reprint.
+
+(* both, for sets as the code builds them: ImportSet(l, ignore_shadowed=b) *)
+Theorem C11_roundtrip_built : forall P b l out, Forall wf_import l -> print_set P (from_imports b l) = Some out ->
+  exists S', parse_imports out = Some S' /\ (forall x, In x S' <-> In x (from_imports b l)) /\
+             from_imports false S' = from_imports b l.
+Proof. exact roundtrip_built. Qed.
+Print Assumptions C11_roundtrip_built.
+
+Theorem C11_reprint_built : forall P b l out S', Forall wf_import l -> print_set P (from_imports b l) = Some out ->
+  parse_imports out = Some S' -> print_set P (from_imports false S') = Some out.
+Proof. exact reprint_built. Qed.
+Print Assumptions C11_reprint_built.
+
 (* Import.split and Import.from_split are inverse on expressible imports *)
 Theorem C11_from_split_split : forall i, wf_import i -> from_split (split i) = i.
 Proof. exact from_split_split. Qed.
